@@ -2,7 +2,7 @@
 # usage: tools/sweep.sh <tier> <seed> [<seed> ...]  -> one summary line per (check, seed); evidence/replays go to scratch dirs
 tier=$1; shift
 for seed in "$@"; do
-  for p in C01 C02 C03 C04 C05 C06 C07 C08 C09 C10 C11 C12 C13 C14 C15 C16 C17 C18 C19 C20; do
+  for p in ${SWEEP_PROPS:-C01 C02 C03 C04 C05 C06 C07 C08 C09 C10 C11 C12 C13 C14 C15 C16 C17 C18 C19 C20}; do
     out=$(VERIF_SEED=$seed VERIF_EVIDENCE_DIR=/tmp/vf_sweep_ev VERIF_REPLAY_DIR=$PWD/replays_sweep ./check $p $tier 2>&1)
     rc=$?
     echo "SWEEP tier=$tier seed=$seed $p rc=$rc :: $(echo "$out" | head -1 | cut -c1-160)"
